@@ -3,6 +3,7 @@ pub mod grad;
 pub mod mapgen;
 pub mod rng;
 
+pub mod c01;
 pub mod c02;
 pub mod c03;
 pub mod c04;
@@ -12,3 +13,5 @@ pub mod c14;
 pub mod c15;
 pub mod c18;
 pub mod c19;
+pub mod c20;
+pub mod hist;
